@@ -249,3 +249,42 @@ def now_is_realtime_rule(run, f, rid):
         run.ok(rid, "common::now/clock", {"clock": "not wall clock, but no consumer subtracts now() from a caller's absolute deadline"})
     else:
         run.fail(rid, "common::now/clock", b.loc(), "now() is not wall-clock time since UNIX_EPOCH (sources: %s) while %s subtracts it from the caller's CLOCK_REALTIME deadline: the remaining time never reaches zero and the timed wait never returns ETIMEDOUT" % (sorted(c.rsplit("::", 2)[-2] + "::" + c.rsplit("::", 1)[-1] for c in cs if "time" in c.lower() or "Instant" in c), consumers))
+
+
+# ------------------------------------------------------------------ C09/C07/C08: nothing ends the coroutine between the request push and the yield
+SUS = "coroutine::suspender::korosensei::Suspender"
+
+
+def _diverging(b):
+    """Blocks whose terminator is a call that never returns (panic!/assert!/unreachable!/abort ...): an exit of the unit
+    that is not a return."""
+    return [x for (x, t) in b.calls() if t.get("target") is None]
+
+
+def no_exit_before_yield_rule(run, f, rid):
+    """until_with / cancel push the request on the thread-local queue and then yield; the queue is drained only by the resume
+    that sees a Yield (never by a Return).  If control can leave the coroutine's body between the push and the context
+    switch by anything but that switch -- a return, or a panic!/assert! caught by the coroutine's catch and turned into a
+    Return -- the request stays queued and is attributed to the next yield on the thread.  So with suspend_with (and every
+    helper the rules do not name) spliced into the pusher, every path from the push to an exit of the unit -- a return OR a
+    call that does not return -- passes the context switch (Yielder::suspend)."""
+    run.rule(rid, "from the request push, every path to a return or to a non-returning call (panic!/assert!) passes the context switch", floor=2, template="T1 (must-pass, panics as exits)")
+    for fn in (SUS + "::until_with", SUS + "::cancel"):
+        b = unit(run, rid, f, fn, force={"suspend_with"})
+        if b is None:
+            continue
+        cfg = Cfg(b)
+        push = find_calls(b, callee_is("std::collections::VecDeque::push_front", "std::collections::VecDeque::push_back"))
+        sw = [x for (x, t) in b.calls() if norm(t.get("callee") or "").endswith("Yielder::suspend")]
+        nm = fn.rsplit("::", 1)[1]
+        if len(push) != 1 or not sw:
+            run.fail(rid, nm + "/no-exit-before-yield", b.loc(), "%s: expected one request push and the context switch in the unit (found %d / %d)" % (nm, len(push), len(sw)))
+            continue
+        div = [x for x in _diverging(b) if x in cfg.reach]
+        ok, wit = cfg.must_pass(cfg.after(push[0][0]), sw, exits=set(cfg.returns) | set(div))
+        if ok:
+            run.ok(rid, nm + "/no-exit-before-yield", {"switch_sites": len(sw), "non_returning_calls_in_unit": len(div)})
+        else:
+            t = b.blocks[wit]["term"]
+            what = "returns" if t["k"] == "return" else "can end in %s (line %s)" % (norm(t.get("callee") or "a non-returning call"), t.get("line"))
+            run.fail(rid, nm + "/no-exit-before-yield", b.loc(t.get("line")), "%s %s after pushing its request and before the context switch: the coroutine then ends with a Return, which does not drain the queue, and the request is attributed to the next yield on the thread" % (nm, what))
